@@ -29,7 +29,8 @@ LEAN_MODULE = "XV.Props.C17"
 THEOREMS = ["XV.Props.C17." + t for t in (
     "lockset_implies_drf", "mutual_exclusion", "hb_lt", "checkTrace_sound_complete", "checkInitOnce_sound_complete",
     "accepted_trace_race_free", "init_once", "init_no_deadlock", "ids_stable", "getId_denotes",
-    "getId_asIs_not_stable", "linearizable", "all_guarded_resources_have_site", "all_markers_guarded")]
+    "getId_asIs_not_stable", "linearizable", "all_guarded_resources_have_site", "all_markers_guarded",
+    "all_guarded_site_counts")]
 RULE = ("a run = (seed, N threads in {2,4,8,16}, items per thread, shared-locked-pool yes/no); every thread draws its "
         "items from 12 workload kinds; evaluations = workload items executed concurrently and compared with the "
         "single-threaded digest + trace events checked + pool operations replayed; a run is non-trivial when >= 2 "
@@ -42,7 +43,11 @@ ASSUMPTIONS = [
     "DOMDocumentTypeImpl::sDocument, XMLScanner's scanner-id counter, SynchronizedStringPool overflow pool, "
     "ICULCPTranscoder converter); races in code without a marker (function-local statics, lazily completed parts of "
     "cached grammars, ...) can only be found by the ThreadSanitizer runs, which are a search, not a proof",
-    "ICU and libc internals are not instrumented and not modelled",
+    "ICU and libc internals are not instrumented and not modelled; the one exception is the boundary of the process-wide "
+    "local-code-page converter: the harness interposes ucnv_fromUChars / ucnv_toUChars and treats each call as an access to "
+    "the converter (guard inferred Eraser-style from the recorded locksets; a shadow write under TSan), so an unlocked use is "
+    "seen even where the xerces source carries no marker. The process runs under the C.UTF-8 locale so that the multi-byte "
+    "retry path of ICULCPTranscoder::transcode is exercised",
     "mutexes are modelled as non-recursive; this build's std::recursive_mutex re-entrant acquisitions are collapsed by "
     "the recorder (their count is reported in the evidence)",
     "the recorder serialises events with its own lock: the recorded total order is one linearisation consistent with "
@@ -57,9 +62,9 @@ TRUSTED = ["XV.Spec.Trace (Holds / WellFormedLocks / LocksetOK / HB as transcrib
 
 TSAN_BUILD = os.path.join(common.WORK, "build-tsan")
 TSAN_FLAGS = "-O1 -g1 -fsanitize=thread -D" + common.GUARD
-TSAN_ENV = {"TSAN_OPTIONS": "halt_on_error=0 exitcode=0 report_thread_leaks=0 history_size=4 "
+TSAN_ENV = {"LC_ALL": "C.UTF-8", "TSAN_OPTIONS": "halt_on_error=0 exitcode=0 report_thread_leaks=0 history_size=4 "
                             "external_symbolizer_path=/usr/bin/llvm-symbolizer-14"}
-ASAN_ENV = {"ASAN_OPTIONS": "detect_leaks=0:abort_on_error=0:allocator_may_return_null=1",
+ASAN_ENV = {"LC_ALL": "C.UTF-8", "ASAN_OPTIONS": "detect_leaks=0:abort_on_error=0:allocator_may_return_null=1",
             "UBSAN_OPTIONS": "print_stacktrace=0:halt_on_error=0"}
 
 # ------------------------------------------------------------------ builds
@@ -180,6 +185,8 @@ def check_pool_history(out):
     return len(ops), bad
 
 TSAN_ROOT_CAUSES = [
+    ("tsan-race:shared-icu-converter-used-without-lock", r"ucnv_(fromUChars|toUChars)|converterAccess"),
+    ("tsan-race:syncstringpool-unlocked-access", r"XMLSynchronizedStringPool::|XMLStringPool::(getValueForId|addNewEntry|addOrFind|getId|exists)|getValueForId .*StringPool\.hpp|addOrFind .*StringPool\.hpp"),
     ("tsan-race:traverseschema-lazy-static-wsfacets", r"TraverseSchema::getElementAttValue"),
     ("tsan-race:dom-iskidok-lazy-static-table", r"DOMDocumentImpl::isKidOK"),
     ("tsan-race:lazy-rangetoken-map-in-shared-regex", r"RangeToken::(doCreateMap|match)|createMap .*RangeToken\.hpp"),
@@ -315,7 +322,7 @@ def plan(ctx, n_runs):
     for i in range(n_runs):
         n = ns[i % 4]
         flags = 2 | 4 | (1 if i % 2 == 0 or r.chance(1, 4) else 0)
-        if flags & 1 and r.chance(1, 2): flags |= 16
+        if flags & 1 and r.chance(1, 2): flags |= 16 | 64
         if not flags & 1 and r.chance(1, 2): flags |= 32
         items = {2: 10, 4: 8, 8: 6, 16: 4}[n]
         cfgs.append({"seed": 1 + r.below(10 ** 6), "n": n, "items": items, "flags": flags})
@@ -327,7 +334,7 @@ def plan_tsan(ctx, n_runs):
             {"seed": 1 + r.below(10 ** 6), "n": 4, "items": 3, "flags": 8 | 4}]
     ns = [8, 4, 2, 16]
     for i in range(max(0, n_runs - 2)):
-        cfgs.append({"seed": 1 + r.below(10 ** 6), "n": ns[i % 4], "items": 5, "flags": 4 | (17 if i % 2 == 0 else 32 if i % 4 == 1 else 0)})
+        cfgs.append({"seed": 1 + r.below(10 ** 6), "n": ns[i % 4], "items": 5, "flags": 4 | (17 | 64 if i % 2 == 0 else 32 if i % 4 == 1 else 0)})
     return cfgs
 
 def add_violations(ctx, results):
@@ -346,7 +353,7 @@ def correspondence(ctx):
     t0 = time.time()
     common.build_harness("hx_thr")
     th = ctx.thorough()
-    cfgs = plan(ctx, 240 if th else 16)
+    cfgs = plan(ctx, 240 if th else 12)
     workers = max(2, common.NCPU // 4)
     with concurrent.futures.ThreadPoolExecutor(max_workers=workers) as ex:
         results = list(ex.map(one_asan_run, cfgs))
